@@ -29,7 +29,7 @@ Lemma vel_step_is_compose X0 XPF F0 XMB VGP VFM : is_rot (m33_mul ROps (fst X0) 
   = vel_step ROps X0 VGP XPF F0 XMB VFM.
 Proof. intros HG. destruct X0 as [RP pP]. destruct XPF as [RF pF]. destruct F0 as [RM pM]. destruct XMB as [RB pB].
   destruct VGP as [wP vP]. destruct VFM as [w v]. unfold compose_vel, vel_step, pose_step.
-  cbn [xf_compose xf_apply fst snd]. unfold xf_apply. cbn [xf_compose fst snd]. unfold xf_apply. cbn [fst snd] in *.
+  cbn [fst snd] in HG. repeat progress (cbn [xf_compose fst snd]; unfold xf_apply).
   rewrite !mulv_0, !(mulv_assoc (m33_mul ROps RP RF) RM), (mulv_add (m33_mul ROps RP RF)).
   rewrite (rot_cross_v (m33_mul ROps RP RF) w (m33_mulv ROps RM pB) HG).
   generalize (m33_mul ROps RP RF) (m33_mulv ROps RP pF) (m33_mulv ROps RM pB). intros G a r.
